@@ -123,7 +123,12 @@ class DictDocument(ProtocolBase):
     def create_out_string(self, ctx, out_string_encoding='utf8'):
         raise NotImplementedError()
 
-    def _check_freq_dict(self, cls, d, fti=None):
+    def _check_freq_dict(self, cls, d, fti=None, counts_items=True):
+        """Checks the numbers in ``d`` against the occurence constraints of
+        the members of ``cls``. ``counts_items`` tells whether the number for
+        an array member is the number of its items or of the arrays.
+        """
+
         if fti is None:
             fti = cls.get_flat_type_info(cls)
 
@@ -134,6 +139,14 @@ class DictDocument(ProtocolBase):
             min_o, max_o = attrs.min_occurs, attrs.max_occurs
 
             if issubclass(v, Array) and v.Attributes.max_occurs == 1:
+                # the array itself must be there when it says so.
+                if val == 0 and min_o > 0:
+                    raise ValidationError("%r.%s" % (cls, k),
+                             '%%s member must occur at least %d times.' % min_o)
+
+                if val == 0 or not counts_items:
+                    continue
+
                 v, = v._type_info.values()
                 attrs = self.get_cls_attrs(v)
                 min_o, max_o = attrs.min_occurs, attrs.max_occurs
